@@ -9,6 +9,7 @@ import (
 	"github.com/prometheus/prometheus/model/labels"
 	"github.com/prometheus/prometheus/promql"
 
+	"github.com/thanos-community/promql-engine/api"
 	"github.com/thanos-community/promql-engine/engine"
 
 	"verifharness/run"
@@ -74,7 +75,7 @@ func sameCanon(a, b run.CResult) bool {
 // operation every result handed out earlier is compared with its deep snapshot; every execution
 // is compared with the execution of a freshly constructed engine on the current data.
 func famSession(sc *scn.Scenario, em func(vt.Ev)) {
-	runtime.GOMAXPROCS(sc.CfgInt("procs", 4))
+	runtime.GOMAXPROCS(sc.Procs())
 	em(vt.Ev{"ev": "sc", "id": sc.ID, "fam": sc.Fam, "q": "history", "start": 0, "end": 0, "step": 0, "lb": sc.LB, "qlb": 0, "tickms": sc.TickMs, "data": []any{}, "cfg": sc.Cfg})
 	var queries []string
 	for _, x := range cfgList(sc.Cfg, "queries") {
@@ -89,7 +90,39 @@ func famSession(sc *scn.Scenario, em func(vt.Ev)) {
 	}
 	series := run.SeriesOf(sc, sc.Data)
 	store := vstore.New(series)
-	eng := engine.New(run.EngineOpts(sc, "default", false, nil))
+	// cfg.engine = "dist": the engine is a distributed engine over two local engines whose storages hold
+	// the series of even / odd index of the growing storage - long-lived ones for the long-lived engine
+	dist := sc.CfgStr("engine", "plain") == "dist"
+	split := func(parts [2]*vstore.Store) {
+		for e := 0; e < 2; e++ {
+			var p []vstore.Series
+			for j, s := range store.Series {
+				if j%2 == e {
+					p = append(p, s)
+				}
+			}
+			parts[e].Series = p
+		}
+	}
+	newEngine := func() (run.QueryEngine, [2]*vstore.Store) {
+		var parts [2]*vstore.Store
+		if !dist {
+			return engine.New(run.EngineOpts(sc, "default", false, nil)), parts
+		}
+		var remotes []api.RemoteEngine
+		for e := 0; e < 2; e++ {
+			parts[e] = vstore.New(nil)
+			remotes = append(remotes, engine.NewLocalEngine(run.EngineOpts(sc, "default", false, nil), parts[e]))
+		}
+		split(parts)
+		return engine.NewDistributedEngine(run.EngineOpts(sc, "default", false, nil), api.NewStaticEndpoints(remotes)), parts
+	}
+	eng, parts := newEngine()
+	syncParts := func() {
+		if dist {
+			split(parts)
+		}
+	}
 	cl := newClassifier()
 	var held []*heldResult
 	nextTick := int64(8)
@@ -124,6 +157,7 @@ func famSession(sc *scn.Scenario, em func(vt.Ev)) {
 			}
 			nextTick++
 			store.Series = ns
+			syncParts()
 			em(vt.Ev{"ev": "data"})
 			desc += " " + op.Kind
 		case "close":
@@ -166,7 +200,7 @@ func famSession(sc *scn.Scenario, em func(vt.Ev)) {
 				}
 			}
 			// a freshly constructed engine on the current data
-			fe := engine.New(run.EngineOpts(sc, "default", false, nil))
+			fe, _ := newEngine()
 			fo := run.Exec(context.Background(), fe, vstore.New(store.Series), &qs, false)
 			o := wholeResult(fo.C)
 			if fo.CreateErr != nil {
